@@ -507,6 +507,11 @@ fn run_case(userun: bool, seed: u64, ops: &[Op]) -> String {
                 side.release_gate();
                 'u'
             }
+            Op::Drop(92) => {
+                // stop the System's own (initial) arbiter: System::stop must not depend on it
+                side.sys.arbiter().stop();
+                'u'
+            }
             Op::Drop(k) => {
                 if let Some(slot) = slots.get_mut(k) {
                     slot.owner.take();
